@@ -7,6 +7,7 @@ package harness
 // model reports an Edge and the caller skips the comparison (counted).
 
 import (
+	"math/big"
 	"encoding/json"
 	"fmt"
 	"github.com/ovn-org/libovsdb/simrt"
@@ -280,6 +281,22 @@ func (x *refTxn) match(t *Table, where any) ([]string, error) {
 
 // ---- mutations -------------------------------------------------------------------
 
+// overflows reports whether a (op) b leaves the 64-bit integers.
+func overflows(op string, a, b int64) bool {
+	x, y := new(big.Int).SetInt64(a), new(big.Int).SetInt64(b)
+	switch op {
+	case "+=":
+		x.Add(x, y)
+	case "-=":
+		x.Sub(x, y)
+	case "*=":
+		x.Mul(x, y)
+	default:
+		return false
+	}
+	return !x.IsInt64()
+}
+
 func (x *refTxn) mutate(c *Column, cur Value, mutator string, rawArg any) (Value, string, error) {
 	ct := &c.Type
 	switch mutator {
@@ -293,6 +310,7 @@ func (x *refTxn) mutate(c *Column, cur Value, mutator string, rawArg any) (Value
 		}
 		out := Value{}
 		for _, a := range cur.Set {
+			before := a.I
 			if a.T == 'i' {
 				switch mutator {
 				case "+=":
@@ -311,6 +329,9 @@ func (x *refTxn) mutate(c *Column, cur Value, mutator string, rawArg any) (Value
 						return cur, "domain", nil
 					}
 					a.I %= arg.I
+				}
+				if overflows(mutator, before, arg.I) {
+					return cur, "overflow", nil // not representable in 64 bits: a definite "range error"
 				}
 				if a.I > 1<<53 || a.I < -(1<<53) {
 					return cur, "range", nil
@@ -332,7 +353,7 @@ func (x *refTxn) mutate(c *Column, cur Value, mutator string, rawArg any) (Value
 					return cur, "", fmt.Errorf("%%= on real")
 				}
 				if math.IsInf(a.R, 0) || math.IsNaN(a.R) {
-					return cur, "range", nil
+					return cur, "overflow", nil // a definite "range error"
 				}
 			}
 			out.Set = append(out.Set, a)
@@ -668,6 +689,11 @@ func RefTransact(sch *Schema, before DBState, ops []Op, reported map[int]string)
 					nv, edge, err := x.mutate(c, staged[u][cn], mu, m[2])
 					if err != nil {
 						bad = "error"
+						break
+					}
+					if edge == "overflow" {
+						bad = "range error"
+						detail = "mutate:range"
 						break
 					}
 					if edge != "" {
